@@ -140,16 +140,17 @@ def verify_function(e: Engine, qname: str) -> FunctionResult:
         e.obls.append(cov)
         outs = e.exec_block(fi.node.body, st)
         res.paths = len(outs)
-        canary_done = False
+        canary_done = 0
         for o in outs:
             if o.kind in ("normal", "return"):
                 val = o.val if o.kind == "return" else none_sv()
                 check_post(e, c, o.st, val, entry)
-                if not canary_done:
-                    can = Obligation(f"{qname}/canary:exit-reachable", list(e.axioms) + list(o.st.pc), FALSE, {}, "",
+                if canary_done < 4:
+                    # vacuity canaries: at least one exit path must be reachable (grouped per function in the report)
+                    can = Obligation(f"{qname}/canary:exit-reachable@{canary_done + 1}", list(e.axioms) + list(o.st.pc), FALSE, {}, "",
                                      "canary", expect="sat")
                     e.obls.append(can)
-                    canary_done = True
+                    canary_done += 1
             elif o.kind == "raise":
                 if o.exc in c.raises_ensures:
                     for name, expr in c.raises_ensures[o.exc].items():
